@@ -134,7 +134,9 @@ RULE = ("corpus, then random patterns (depth<=3 over Cabinet/Drawer/Handle-like 
         "data of that moment; 30% of the cases hand the domain over as a one-shot generator / iterator / tuple and "
         "30% start evaluations of the same query object that are ABANDONED after 0-3 results (iterator kept or "
         "dropped) before the first complete evaluation and at the beginning / end of steps - the answers of the "
-        "complete evaluations must not change and the rows handed out must be specified rows; non-trivial = the specified "
+        "complete evaluations must not change and the rows handed out must be specified rows; the values of the str "
+        "attributes (Handle.name, Cabinet.name: pattern depths 1-3) are proper substrings of one another and include "
+        "the empty string (table NAMES); non-trivial = the specified "
         "answer is neither empty nor all candidate elements; distinct by case text")
 
 # ---------------------------------------------------------------------------------------------- static description
@@ -334,8 +336,15 @@ def _krrood():
     return _K
 
 
+# string values of the `str` attributes: the Lean side knows them by their index only (equality of strings = equality of
+# indices, the table is injective); the strings themselves are chosen so that they are proper SUBSTRINGS of one another
+# and include the empty string ("a literal means equality", never containment: "n" in "n1" in "n10", "" in everything)
+NAMES = ["n", "n1", "", "1", "n10", "0"]
+_NAME_IX = {s: i for i, s in enumerate(NAMES)}
+
+
 def _name(k: int) -> str:
-    return f"n{k}"
+    return NAMES[k] if 0 <= k < len(NAMES) else f"m{k}"
 
 
 def make_objects(c) -> List[Any]:
@@ -413,7 +422,9 @@ def show_real(v, ids) -> str:
         return "T" if v else "F"
     if isinstance(v, int):
         return str(v)
-    if isinstance(v, str) and v.startswith("n"):
+    if isinstance(v, str) and v in _NAME_IX:
+        return str(_NAME_IX[v])
+    if isinstance(v, str) and v.startswith("m") and v[1:].isdigit():
         return v[1:]
     return "?" + type(v).__name__
 
@@ -768,7 +779,7 @@ def gen_world(rng):
     hs = []
     for _ in range(rng.randint(2, 4)):
         cls = 1 if rng.random() < 0.3 else 0
-        objs.append({"cls": cls, "fields": {"name": ("int", rng.randint(0, 1)), "size": ("int", rng.randint(0, 2))}})
+        objs.append({"cls": cls, "fields": {"name": ("int", gen_name(rng)), "size": ("int", rng.randint(0, 2))}})
         hs.append(len(objs) - 1)
     if rng.random() < 0.6:  # an exact value-equal copy
         src = objs[rng.choice(hs)]
@@ -792,7 +803,7 @@ def gen_world(rng):
     cs = []
     drawer_pool = [some(ds, 0, 3) for _ in range(2)]
     for _ in range(rng.randint(1, 4)):
-        f = {"name": ("int", rng.randint(0, 1)), "main": ("obj", rng.choice(ds)),
+        f = {"name": ("int", gen_name(rng)), "main": ("obj", rng.choice(ds)),
              "drawers": ("objs", list(rng.choice(drawer_pool)) if rng.random() < 0.6 else some(ds, 0, 3)),
              "tags": ("list", some([0, 1, 2], 0, 2))}
         objs.append({"cls": 4, "fields": f})
@@ -804,8 +815,16 @@ def _pool(objs, cls):
     return [i for i, o in enumerate(objs) if is_sub(o["cls"], cls)]
 
 
+def gen_name(rng) -> int:
+    """index into NAMES: mostly the two common names (value-equal distinct handles stay frequent; NAMES[0] is a proper
+    substring of NAMES[1]), sometimes the empty string, a suffix, a longer string"""
+    return rng.choice([0, 0, 0, 1, 1, 1, 2, 3, 4])
+
+
 def gen_scalar(rng, objs, attr):
-    return rng.randint(0, 1) if attr in ("name", "depth") else rng.randint(0, 2)
+    if attr == "name":
+        return gen_name(rng)
+    return rng.randint(0, 1) if attr == "depth" else rng.randint(0, 2)
 
 
 def gen_len(rng) -> int:
@@ -1059,7 +1078,7 @@ def gen_steps(rng, c):
 
     def new_obj(cls):
         if cls in (0, 1):
-            f = {"name": ("int", rng.randint(0, 1)), "size": ("int", rng.randint(0, 2))}
+            f = {"name": ("int", gen_name(rng)), "size": ("int", rng.randint(0, 2))}
         else:
             hs = pool(0)
             if not hs:
